@@ -91,6 +91,9 @@ func runC05(r *Run, p *Prog) {
 		}
 		// the type reader's result on its success paths is the node built on that path (no stale/other node)
 		for f := range m.typeReaders {
+			if isBuiltDuplicate(f) {
+				continue
+			}
 			for _, rv := range returnedValues(f, 0) {
 				vals := []ssa.Value{rv.Val}
 				if ph, ok := rv.Val.(*ssa.Phi); ok {
@@ -282,7 +285,7 @@ func runC05(r *Run, p *Prog) {
 						idx := instrIndex(c)
 						for i := idx - 1; i >= 0; i-- {
 							if cc, ok := blk.Instrs[i].(*ssa.Call); ok && a.isCursorMethod(cc.Call.StaticCallee()) {
-								prevSkip = cc.Call.StaticCallee() == m.skipper
+								prevSkip = cc.Call.StaticCallee() == origFn(m.skipper)
 								break
 							}
 						}
@@ -391,6 +394,9 @@ func runC05(r *Run, p *Prog) {
 		}
 		kinds := 0
 		for f, tc := range m.tokens {
+			if isBuiltDuplicate(f) {
+				continue
+			}
 			switch {
 			case tc.MayBeEmpty && tc.First.equal(lower):
 				kinds++
